@@ -193,11 +193,15 @@ func (c20) Run(e *Env) {
 	var parkedUp []*Parked  // parked upstream requests
 	nDP := 0
 
+	slowRuntimeAPI := e.Chance(1, 3)
 	canonBody := func(r *HTTPReq) (string, []string) {
 		obs, _ := decodeBody(r)
 		var ms []string
 		for _, o := range obs {
 			ms = append(ms, o.Members...)
+			if o.Kind == "counter" && strings.HasPrefix(o.Name, "lambda.c.") {
+				ms = append(ms, strings.TrimPrefix(o.Name, "lambda.c."))
+			}
 		}
 		sort.Strings(ms)
 		return strings.Join(ms, ","), ms
@@ -216,6 +220,12 @@ func (c20) Run(e *Env) {
 				case r.Host == "lambda" && strings.HasSuffix(r.Path, "/event/next"):
 					pendingNext = p
 				case r.Host == "lambda":
+					if slowRuntimeAPI && strings.Contains(r.Path, "telemetry") {
+						// the runtime answers the subscription call slowly
+						e.Fault("runtime-api-latency")
+						e.Probe("slow-telemetry-subscription")
+						time.Sleep(time.Duration(50+e.Draw(200)) * time.Millisecond)
+					}
 					fab.Gate.Release(p, HTTPOutcome{Kind: "serve"})
 					progressed = true
 				case r.Host == "upstream":
@@ -303,6 +313,11 @@ func (c20) Run(e *Env) {
 		d := &dp{member: fmt.Sprintf("dp%d", nDP), inv: invocation, doneAt: beforeDone}
 		dps = append(dps, d)
 		line := fmt.Sprintf("lambda.set:%s|s", d.member)
+		if e.Chance(1, 5) {
+			// a counter datapoint, one in two of value 0 ("0 errors" is a datapoint like any other)
+			line = fmt.Sprintf("lambda.c.%s:%d|c", d.member, e.Draw(2))
+			e.Probe("counter-datapoint")
+		}
 		if dynHeaders {
 			if svc := []string{"", "a", "b", "c"}[e.Draw(4)]; svc != "" {
 				line += "|#service:" + svc
